@@ -139,8 +139,8 @@ var c12Lit = core.Mon(c12, "literal-value", func(w *core.W, c *LitCase) {
 	}
 	// the literal as the top-level result of one evaluation, read back in the next (the value must still be the written one)
 	if want.Digits() > 30 || strings.Contains(c.Lit, "_") || w.Counter("wellformed_checked")%16 == 0 {
-		sc1, e1 := hostParse([]byte("$v = " + c.Lit), true)
-		sc2, e2 := hostParse([]byte("[$v, " + c.Lit + "]"), true)
+		sc1, e1 := hostParse([]byte("$v = "+c.Lit), true)
+		sc2, e2 := hostParse([]byte("[$v, "+c.Lit+"]"), true)
 		if e1 != nil || e2 != nil {
 			return
 		}
